@@ -103,3 +103,41 @@ package corebgp
 //@   modifies locked(s.mu), chanClosed(s.closeCh), onceDone(s.closeOnce)
 //@   ensures [lock_released] !locked(s.mu)
 //@   ensures [close_requested] chanClosed(s.closeCh)
+
+// ---- Serve (C10 C20) ----
+//@ pure peerStartable(p) = peerInv(p) && !p.inHoldDown && !peerRunning(p) && (chanClosed(p.closeCh) == onceDone(p.closeOnce))
+//@ pure peerStoppable(p) = p != nil && p.closeCh != nil && p.doneCh != nil && (chanClosed(p.closeCh) == onceDone(p.closeOnce))
+//@ pure stoppablePeers(s) = (forall k :: has(s.peers, k) ==> s.peers[k] != nil && peerStoppable(s.peers[k]) && s.peers[k].closeCh != s.doneServingCh) && (forall k1, k2 :: has(s.peers, k1) && has(s.peers, k2) && k1 != k2 ==> s.peers[k1] != s.peers[k2] && s.peers[k1].closeCh != s.peers[k2].closeCh)
+
+// Serve's deferred function: stop (and join) every registered peer under the lock.
+//@ func Server.Serve$1
+//@   loop#0 invariant [stopping] 0 <= rangepos && rangepos <= rangelen && locked(s.mu) && s.doneServingCh != nil && !chanClosed(s.doneServingCh) && stoppablePeers(s)
+
+// The listener goroutine: accept, hand every connection to handleInboundConn,
+// report the first Accept error unless the listeners are being closed.
+//@ func Server.Serve$2
+//@   requires lis != nil && serverObj(s) && !locked(s.mu) && peersOK(s) && lisWG != nil && lisErrCh != nil && closingListeners != nil
+//@   loop#0 invariant [idle] !locked(s.mu) && peersOK(s)
+//@   modifies locked(s.mu), connClosed, wgCount(lisWG)
+
+//@ func Server.Serve returns (err)
+//@   requires serverObj(s) && !locked(s.mu) && (chanClosed(s.closeCh) == onceDone(s.closeOnce))
+//@   requires [fresh_or_finished] chanClosed(s.doneServingCh) || !s.serving
+//@   requires [peers] forall k :: has(s.peers, k) ==> s.peers[k] != nil && peerStartable(s.peers[k])
+//@   requires [peers_distinct] stoppablePeers(s)
+//@   requires [listeners] forall i :: 0 <= i && i < len(listeners) ==> listeners[i] != nil
+//@   ghostvar refused bool = false
+//@   at select#0 case 0 set refused = true
+//@   at select#0 case 1 set refused = true
+//@   at call start#0 assert [starts_registered_peer_under_lock] locked(s.mu) && s.serving && has(s.peers, rangekey(rangepos - 1)) && arg0 == s.peers[rangekey(rangepos - 1)]
+//@   loop#0 invariant [starting] locked(s.mu) && s.serving && !refused && 0 <= rangepos && rangepos <= rangelen && !chanClosed(s.doneServingCh) && (forall k :: rangepos <= k && k < rangelen ==> peerStartable(s.peers[rangekey(k)])) && stoppablePeers(s)
+//@   loop#1 invariant [listening] !locked(s.mu) && !refused && !chanClosed(s.doneServingCh) && -1 <= rangeindex && rangeindex + 1 <= len(listeners) && stoppablePeers(s)
+//@   modifies locked(s.mu), s.serving, chanClosed, onceDone, peerRunning, fsmRunning, wgCount, peer.fsms, peer.fsmState
+//@   ensures [closed_server_refuses] old(chanClosed(s.doneServingCh) || chanClosed(s.closeCh)) ==> refused && err == ErrServerClosed && s.serving == old(s.serving)
+//@   ensures [always_an_error] err != nil
+//@   ensures [lock_released] !locked(s.mu)
+//@   ensures [not_serving_afterwards] !refused ==> !s.serving && chanClosed(s.doneServingCh)
+
+//@ func funcPeerOption.apply
+//@   requires f.fn != nil
+//@   modifies *p
